@@ -9251,3 +9251,762 @@ func ruleFirstStartCountersFirst(r *Run) {
 	r.check(wit == nil, "Initialize:first-start:counters-written-first", "no metadata write precedes putNewIDs",
 		"on the first start another metadata record is written before the id counters: a crash between the two leaves a store that every later start refuses (the loader tolerates missing maps and a missing format key, not missing counters)", w.pos(ids.Pos()), w.renderPath(wit)...)
 }
+
+// ---------------------------------------------------------------------------------------------
+// Round i, C13: R13.33–R13.36
+
+func init() {
+	register(ruleDef{ID: "R13.33", Prop: "C13", Tier: "quick", Floor: 3,
+		Title: "an element's voxel is found with each axis's own stride: in the annotation package, where the byte offset of an element's voxel in a label block is a sum of products of the in-block position (Point3dInChunk) and block-size components, the term of position x carries no size, the term of y exactly Size[0], the term of z exactly Size[0] and Size[1] (a z stride of Size[0]² files elements of non-cubic blocks under the wrong body)",
+		Fn:    ruleElementVoxelStrides})
+	register(ruleDef{ID: "R13.34", Prop: "C13", Tier: "quick", Floor: 1,
+		Title: "a key range built from two coordinates uses each for its own end: in the annotation package, in a function that returns a (min, max) key pair from a begin and an end coordinate, the first key depends on the begin parameter only and the second on the end parameter only (a max key built from the begin coordinate makes the single-range scan of GET blocks return the first Z layer only)",
+		Fn:    ruleRangeEndsFromOwnParameter})
+	register(ruleDef{ID: "R13.35", Prop: "C13", Tier: "quick", Floor: 2,
+		Title: "elements are filed under body labels: every call of GetLabelPoints in the annotation package asks for body labels (useSupervoxels is the constant false) — the per-body view label/<l> and the labelsz counts are keyed by body, and after a merge the supervoxel id is a different number",
+		Fn:    ruleElementsFiledUnderBodies})
+	register(ruleDef{ID: "R13.36", Prop: "C13", Tier: "quick", Floor: 1,
+		Title: "every reference to a deleted element is removed: in annotation's Elements.deleteRel the loop over an element's relationships is left only at its end (an element may reference a partner more than once, e.g. PostSynTo and GroupedWith)",
+		Fn:    ruleDeleteRelWalksAllRelationships})
+}
+
+func ruleElementVoxelStrides(r *Run) {
+	w := r.W
+	n := 0
+	for _, f := range w.RepoFuncs {
+		if len(f.Blocks) == 0 || relPkg(pkgPathOf(f)) != "datatype/annotation" || isTestFunc(w, f) {
+			continue
+		}
+		// atoms: an indexed component of a Point3d that comes from Point3dInChunk (a coordinate) or of another
+		// Point3d (a size)
+		classify := func(v ssa.Value) (kind string, axis int64) {
+			v = stripConv(v)
+			var base ssa.Value
+			axis = -1
+			switch x := v.(type) {
+			case *ssa.Index:
+				base = x.X
+				if c, ok := constInt(x.Index); ok {
+					axis = c
+				}
+			case *ssa.UnOp:
+				if ia, ok := x.X.(*ssa.IndexAddr); ok {
+					base = ia.X
+					if c, ok := constInt(ia.Index); ok {
+						axis = c
+					}
+				}
+			case *ssa.Const:
+				return "const", -1
+			}
+			if base == nil || axis < 0 || !strings.Contains(base.Type().String(), "Point3d") {
+				return "other", -1
+			}
+			for d := range dataDeps(base) {
+				if c, ok := d.(*ssa.Call); ok && (methodNameOf(c) == "Point3dInChunk" || methodNameOf(c) == "PointInChunk") {
+					return "coord", axis
+				}
+			}
+			return "size", axis
+		}
+		// expand an expression into monomials (lists of atoms)
+		var expand func(v ssa.Value, depth int) [][]ssa.Value
+		expand = func(v ssa.Value, depth int) [][]ssa.Value {
+			v = stripConv(v)
+			if depth > 12 {
+				return [][]ssa.Value{{v}}
+			}
+			if bo, ok := v.(*ssa.BinOp); ok {
+				switch bo.Op {
+				case token.ADD:
+					return append(expand(bo.X, depth+1), expand(bo.Y, depth+1)...)
+				case token.MUL:
+					var out [][]ssa.Value
+					for _, a := range expand(bo.X, depth+1) {
+						for _, b := range expand(bo.Y, depth+1) {
+							m := append(append([]ssa.Value{}, a...), b...)
+							out = append(out, m)
+						}
+					}
+					return out
+				}
+			}
+			return [][]ssa.Value{{v}}
+		}
+		seen := map[ssa.Value]bool{}
+		k := 0
+		for _, b := range f.Blocks {
+			for _, in := range b.Instrs {
+				sl, ok := in.(*ssa.Slice)
+				if !ok || sl.Low == nil || seen[sl.Low] {
+					continue
+				}
+				if st, ok := sl.X.Type().Underlying().(*types.Slice); !ok || !types.Identical(st.Elem(), types.Typ[types.Uint8]) {
+					continue
+				}
+				seen[sl.Low] = true
+				monos := expand(sl.Low, 0)
+				coords := 0
+				bad := ""
+				for _, m := range monos {
+					var caxis int64 = -1
+					var sizes []int64
+					for _, a := range m {
+						kind, ax := classify(a)
+						switch kind {
+						case "coord":
+							caxis = ax
+						case "size":
+							sizes = append(sizes, ax)
+						}
+					}
+					if caxis < 0 {
+						continue
+					}
+					coords++
+					sort.Slice(sizes, func(i, j int) bool { return sizes[i] < sizes[j] })
+					want := []int64{}
+					for a := int64(0); a < caxis; a++ {
+						want = append(want, a)
+					}
+					if fmt.Sprint(sizes) != fmt.Sprint(want) {
+						bad = fmt.Sprintf("the term of position component %d is multiplied by size components %v, expected %v", caxis, sizes, want)
+					}
+				}
+				if coords < 3 {
+					continue
+				}
+				n++
+				k++
+				r.check(bad == "", fmt.Sprintf("%s:voxel-offset#%d:strides", fname(f), k), "x carries no size, y Size[0], z Size[0]·Size[1]",
+					"the byte offset of an element's voxel uses a wrong stride ("+bad+"): in a label volume with non-cubic blocks the element's label is read from another voxel, and the element is filed under the wrong body (and counted for it)", w.pos(sl.Pos()))
+			}
+		}
+	}
+	r.check(n >= 3, "annotation:voxel-offsets", fmt.Sprintf("%d", n), "too few found: rule needs review", "-")
+}
+
+func ruleRangeEndsFromOwnParameter(r *Run) {
+	w := r.W
+	n := 0
+	for _, f := range w.RepoFuncs {
+		if len(f.Blocks) == 0 || relPkg(pkgPathOf(f)) != "datatype/annotation" || isTestFunc(w, f) || f.Parent() != nil {
+			continue
+		}
+		res := f.Signature.Results()
+		if res.Len() != 2 || !strings.HasSuffix(res.At(0).Type().String(), "storage.TKey") || !strings.HasSuffix(res.At(1).Type().String(), "storage.TKey") {
+			continue
+		}
+		if len(f.Params) != 2 || f.Params[0].Type().String() != f.Params[1].Type().String() {
+			continue
+		}
+		n++
+		dep := func(v ssa.Value, p *ssa.Parameter) bool {
+			if v == ssa.Value(p) {
+				return true
+			}
+			for d := range dataDeps(v) {
+				if d == ssa.Value(p) {
+					return true
+				}
+				// a parameter spilled to a local
+				if al, ok := d.(*ssa.Alloc); ok {
+					for _, ref := range *al.Referrers() {
+						if st, ok := ref.(*ssa.Store); ok && st.Addr == ssa.Value(al) && st.Val == ssa.Value(p) {
+							return true
+						}
+					}
+				}
+			}
+			return false
+		}
+		ok0, ok1 := true, true
+		for _, b := range f.Blocks {
+			ret, ok := b.Instrs[len(b.Instrs)-1].(*ssa.Return)
+			if !ok || len(ret.Results) != 2 {
+				continue
+			}
+			if !dep(ret.Results[0], f.Params[0]) || dep(ret.Results[0], f.Params[1]) {
+				ok0 = false
+			}
+			if !dep(ret.Results[1], f.Params[1]) || dep(ret.Results[1], f.Params[0]) {
+				ok1 = false
+			}
+		}
+		r.check(ok0 && ok1, fname(f)+":each-end-from-its-own-parameter", "the first key depends on the first parameter only, the second on the second only",
+			"one end of the key range is built from the other end's coordinate: the range is empty or covers one layer only, and the scan that uses it returns a fraction of the stored elements", w.fpos(f))
+	}
+	r.check(n >= 1, "annotation:two-coordinate-ranges", fmt.Sprintf("%d", n), "none found: rule needs review", "-")
+}
+
+func ruleElementsFiledUnderBodies(r *Run) {
+	w := r.W
+	n := 0
+	for _, f := range w.RepoFuncs {
+		if len(f.Blocks) == 0 || relPkg(pkgPathOf(f)) != "datatype/annotation" || isTestFunc(w, f) {
+			continue
+		}
+		k := 0
+		for _, c := range calls(f) {
+			if methodNameOf(c) != "GetLabelPoints" {
+				continue
+			}
+			args := c.Common().Args
+			if len(args) == 0 {
+				continue
+			}
+			n++
+			k++
+			last := args[len(args)-1]
+			kc, ok := last.(*ssa.Const)
+			r.check(ok && kc.Value != nil && kc.Value.String() == "false", fmt.Sprintf("%s:GetLabelPoints#%d:body-labels", fname(f), k), "asks for body labels",
+				"the labels of element positions are looked up as supervoxel ids: after a merge (or any mapping that is not the identity) new and reloaded elements are filed under the supervoxel's number, missing from the body's list label/<body> and miscounted by labelsz", w.pos(c.Pos()))
+		}
+	}
+	r.check(n >= 2, "annotation:label-lookups", fmt.Sprintf("%d", n), "too few found: rule needs review", "-")
+}
+
+func ruleDeleteRelWalksAllRelationships(r *Run) {
+	w := r.W
+	f := w.method("datatype/annotation", "Elements", "deleteRel")
+	if f == nil || len(f.Blocks) == 0 {
+		r.undecided("annotation.Elements.deleteRel", "anchor not found")
+		return
+	}
+	loops := naturalLoops(f)
+	n := 0
+	for _, h := range f.Blocks {
+		set := loops[h]
+		if set == nil {
+			continue
+		}
+		// the loop over Rels: its bound is len() of a value read from a field named Rels
+		ifi, ok := h.Instrs[len(h.Instrs)-1].(*ssa.If)
+		if !ok {
+			continue
+		}
+		overRels := false
+		for d := range dataDeps(ifi.Cond) {
+			switch x := d.(type) {
+			case *ssa.FieldAddr:
+				if nm, _, _ := fieldName(x); nm == "Rels" {
+					overRels = true
+				}
+			case *ssa.Field:
+				if st, ok := x.X.Type().Underlying().(*types.Struct); ok && st.Field(x.Field).Name() == "Rels" {
+					overRels = true
+				}
+			}
+		}
+		if !overRels {
+			continue
+		}
+		// innermost only
+		inner := true
+		for h2, s2 := range loops {
+			if h2 != h && set[h2] && len(s2) < len(set) {
+				inner = false
+			}
+		}
+		if !inner {
+			continue
+		}
+		n++
+		bad := ""
+		for b := range set {
+			if b == h {
+				continue
+			}
+			for _, s := range b.Succs {
+				if !set[s] {
+					bad = w.pos(blockPos(b))
+				}
+			}
+		}
+		r.check(bad == "", fmt.Sprintf("deleteRel:relationship-loop#%d:complete", n), "the loop over the relationships ends only at its end",
+			"the loop over an element's relationships is left at the first match ("+bad+"): a partner that references the deleted element twice keeps a dangling reference, visible in every view of the element set", w.pos(blockPos(h)))
+	}
+	r.check(n >= 1, "deleteRel:relationship-loops", fmt.Sprintf("%d", n), "none found: rule needs review", w.fpos(f))
+}
+
+// ---------------------------------------------------------------------------------------------
+// Round i, C06/C08/C09/C20: R6.21–R6.24, R8.28–R8.29, R9.22
+
+func init() {
+	register(ruleDef{ID: "R6.21", Prop: "C06", Tier: "quick", Floor: 1,
+		Title: "a keyvalue key cannot hold the terminator: keyvalue.NewTKey — the constructor every endpoint, single-key or batch, goes through — reaches its success return only behind a test for a zero byte in the key (the stored form ends with a zero byte and a key's versions are found by byte prefix: \"a\\x00b\" would shadow \"a\")",
+		Fn:    ruleKeyConstructorRefusesTerminator})
+	register(ruleDef{ID: "R20.72", Prop: "C20", Tier: "quick", Floor: 1, Title: "(= R6.21) the keyvalue key constructor refuses a zero byte for every endpoint", Fn: ruleKeyConstructorRefusesTerminator})
+	register(ruleDef{ID: "R6.22", Prop: "C06", Tier: "quick", Floor: 1,
+		Title: "a raw scan stops at the end key: in BadgerDB.RawRangeQuery no key is delivered on a path that follows the 'key is above the end key' edge of the comparison with kEnd within the same pass (an instance's end key is a byte prefix of every key of the next instance: a prefix exception delivers the neighbour's data to copy, migrate and push)",
+		Fn:    ruleRawScanStopsAtEnd})
+	register(ruleDef{ID: "R6.23", Prop: "C06", Tier: "quick", Floor: 1,
+		Title: "a key read past the instance's data is not decoded as a data key: in BadgerDB.versionedRange every call of storage.TKeyFromKey lies behind the true edge of an IsDataKey test of the scanned key (the scan's look-ahead can land on a blob or metadata key when the instance is the last one of the store)",
+		Fn:    ruleLookaheadIsDataKey})
+	register(ruleDef{ID: "R6.24", Prop: "C06", Tier: "quick", Floor: 1,
+		Title: "a tar-loaded file is stored under the instance's extension only: in tarsupervoxels' tar ingest the entry's extension is compared with the instance's Extension for equality and the unequal edge leaves with an error (the stored key is the unterminated file name, so \"12.dat\" is a byte prefix of \"12.dat.gz\")",
+		Fn:    ruleTarExtensionEquality})
+	register(ruleDef{ID: "R8.28", Prop: "C08", Tier: "quick", Floor: 1,
+		Title: "only level-0 blocks are counted into the label indices: in labelmap functions that store blocks at a caller-given scale, every call that feeds the index aggregation (handleBlockIndexing / handleBlockMutate) lies behind the 'scale == 0' edge",
+		Fn:    ruleOnlyLevelZeroIndexed})
+	register(ruleDef{ID: "R8.29", Prop: "C08", Tier: "quick", Floor: 1,
+		Title: "indices are combined by adding counts, not by sharing block entries: in the labelmap package no block entry (*SVCount) read from one label index's Blocks map is stored into another index's Blocks map (two merged bodies with voxels in one block would overwrite each other's counts, and the entries would be shared between indices)",
+		Fn:    ruleNoSharedBlockEntries})
+	register(ruleDef{ID: "R9.22", Prop: "C09", Tier: "quick", Floor: 4,
+		Title: "the single-member shortcut is taken only for a single member: in the labels-package writers that receive the set of requested label positions, every comparison with the set's single member lies behind the 'not several members' edge of the test of the flag computed from len(indices) > 1",
+		Fn:    ruleSingleMemberShortcutGuarded})
+	register(ruleDef{ID: "R8.30", Prop: "C08", Tier: "quick", Floor: 4, Title: "(= R9.22) sparse volumes of a body with several supervoxels in a block test every supervoxel, also in uniform sub-blocks", Fn: ruleSingleMemberShortcutGuarded})
+}
+
+func ruleKeyConstructorRefusesTerminator(r *Run) {
+	w := r.W
+	f := w.fn("datatype/keyvalue", "NewTKey")
+	if f == nil || len(f.Blocks) == 0 || len(f.Params) == 0 {
+		r.undecided("keyvalue.NewTKey", "anchor not found")
+		return
+	}
+	key := f.Params[0]
+	var tests []*ssa.If
+	for _, b := range f.Blocks {
+		ifi, ok := b.Instrs[len(b.Instrs)-1].(*ssa.If)
+		if !ok {
+			continue
+		}
+		for d := range dataDeps(ifi.Cond) {
+			c, ok := d.(*ssa.Call)
+			if !ok {
+				continue
+			}
+			callee := c.Call.StaticCallee()
+			if callee == nil || callee.Pkg == nil {
+				continue
+			}
+			pk := callee.Pkg.Pkg.Path()
+			if (pk == "strings" || pk == "bytes") && (strings.HasPrefix(callee.Name(), "Index") || strings.HasPrefix(callee.Name(), "Contains")) {
+				usesKey, zero := false, false
+				for _, a := range c.Call.Args {
+					if a == ssa.Value(key) {
+						usesKey = true
+					}
+					for dd := range dataDeps(a) {
+						if dd == ssa.Value(key) {
+							usesKey = true
+						}
+					}
+					if k, ok := constInt(a); ok && k == 0 {
+						zero = true
+					}
+					if kc, ok := a.(*ssa.Const); ok && kc.Value != nil && (kc.Value.ExactString() == `"\x00"` || kc.Value.ExactString() == `"\000"`) {
+						zero = true
+					}
+				}
+				if usesKey && zero {
+					tests = append(tests, ifi)
+				}
+			}
+		}
+	}
+	ok := false
+	if len(tests) > 0 {
+		ok = true
+		for _, b := range f.Blocks {
+			ret, isRet := b.Instrs[len(b.Instrs)-1].(*ssa.Return)
+			if !isRet || isErrorExit(ret) {
+				continue
+			}
+			guarded := false
+			for _, t := range tests {
+				if guardedByEdge(t, 0, ret) || guardedByEdge(t, 1, ret) {
+					guarded = true
+				}
+			}
+			if !guarded {
+				ok = false
+			}
+		}
+	}
+	r.check(ok, "keyvalue.NewTKey:zero-byte-refused", "every success return lies behind a test for a zero byte in the key",
+		"the key constructor builds a key without testing it for a zero byte: through any endpoint that does not test for itself (the protobuf batch POST keyvalues) a key \"a\\x00b\" is stored, whose stored form has key \"a\"'s stored form as a prefix — reads of \"a\" return the other key's value and \"a\" disappears from listings", w.fpos(f))
+}
+
+func ruleRawScanStopsAtEnd(r *Run) {
+	w := r.W
+	f := w.method("storage/badger", "BadgerDB", "RawRangeQuery")
+	if f == nil {
+		r.undecided("badger.BadgerDB.RawRangeQuery", "anchor not found")
+		return
+	}
+	var kEnd, out *ssa.Parameter
+	for _, p := range f.Params {
+		if p.Name() == "kEnd" {
+			kEnd = p
+		}
+		if _, ok := p.Type().Underlying().(*types.Chan); ok && out == nil {
+			out = p
+		}
+	}
+	n := 0
+	for _, g := range closureTree(f) {
+		for _, b := range g.Blocks {
+			ifi, ok := b.Instrs[len(b.Instrs)-1].(*ssa.If)
+			if !ok {
+				continue
+			}
+			bo, ok := ifi.Cond.(*ssa.BinOp)
+			if !ok || bo.Op != token.GTR {
+				continue
+			}
+			c, ok := bo.X.(*ssa.Call)
+			if !ok {
+				continue
+			}
+			callee := c.Call.StaticCallee()
+			if callee == nil || callee.Name() != "Compare" || len(c.Call.Args) != 2 {
+				continue
+			}
+			// the end key, directly or as a captured variable
+			root := captureRoot(stripConv(c.Call.Args[1]))
+			isEnd := kEnd != nil && root == ssa.Value(kEnd)
+			if al, ok := root.(*ssa.Alloc); ok && al.Comment == "kEnd" {
+				isEnd = true
+			}
+			if !isEnd {
+				continue
+			}
+			n++
+			above := b.Succs[0]
+			h, _, _ := innermostLoop(g, b)
+			_, loopSet, _ := innermostLoop(g, b)
+			isSend := func(x ssa.Instruction) bool {
+				// a key delivered in this scan: a send (plain or as a select case) inside the loop
+				if loopSet != nil && !loopSet[x.Block()] {
+					return false
+				}
+				switch y := x.(type) {
+				case *ssa.Send:
+					return true
+				case *ssa.Select:
+					for _, st := range y.States {
+						if st.Dir == types.SendOnly {
+							return true
+						}
+					}
+				}
+				return false
+			}
+			_ = out
+			var pth []ssa.Instruction
+			if len(above.Instrs) > 0 {
+				first := above.Instrs[0]
+				if isSend(first) {
+					pth = []ssa.Instruction{first}
+				} else {
+					pth = findPath(g, first, func(x ssa.Instruction) bool { return h != nil && x == h.Instrs[0] }, isSend, nil)
+				}
+			}
+			r.check(pth == nil, fmt.Sprintf("RawRangeQuery:end-test#%d:nothing-delivered-above-the-end", n), "behind 'key above the end key' nothing is sent in that pass",
+				"a key that compares above the end key can still be delivered: the end key of an instance's range is a byte prefix of the next instance's keys, so copy, migrate, push and conflict deletion receive the neighbouring instance's entries", w.pos(ifi.Pos()), w.renderPath(pth)...)
+		}
+	}
+	r.check(n >= 1, "RawRangeQuery:end-tests", fmt.Sprintf("%d", n), "no comparison with the end key found: rule needs review", w.fpos(f))
+}
+
+func ruleLookaheadIsDataKey(r *Run) {
+	w := r.W
+	f := w.method("storage/badger", "BadgerDB", "versionedRange")
+	if f == nil {
+		r.undecided("badger.BadgerDB.versionedRange", "anchor not found")
+		return
+	}
+	n := 0
+	for _, g := range closureTree(f) {
+		var tests []*ssa.If
+		for _, b := range g.Blocks {
+			if ifi, ok := b.Instrs[len(b.Instrs)-1].(*ssa.If); ok {
+				for d := range dataDeps(ifi.Cond) {
+					if c, ok := d.(*ssa.Call); ok && methodNameOf(c) == "IsDataKey" {
+						tests = append(tests, ifi)
+					}
+				}
+			}
+		}
+		for _, c := range calls(g) {
+			callee := staticCallee(c)
+			if callee == nil || callee.Name() != "TKeyFromKey" {
+				continue
+			}
+			n++
+			ok := false
+			for _, t := range tests {
+				if guardedByEdge(t, 0, c) {
+					ok = true
+				}
+			}
+			r.check(ok, fmt.Sprintf("versionedRange:TKeyFromKey#%d:behind-IsDataKey", n), "the scanned key is decoded only behind the IsDataKey test",
+				"the scan's look-ahead key is decoded as a data key without the IsDataKey test: when the scanned instance is the last one of the store and a blob or metadata key follows, every range request on it ends with an error instead of ending cleanly", w.pos(c.Pos()))
+		}
+	}
+	r.check(n >= 1, "versionedRange:TKeyFromKey-calls", fmt.Sprintf("%d", n), "none found: rule needs review", w.fpos(f))
+}
+
+func ruleTarExtensionEquality(r *Run) {
+	w := r.W
+	f := w.method("datatype/tarsupervoxels", "Data", "ingestTarfile")
+	if f == nil {
+		r.undecided("tarsupervoxels.Data.ingestTarfile", "anchor not found")
+		return
+	}
+	ok := false
+	pos := w.fpos(f)
+	for _, b := range f.Blocks {
+		ifi, isIf := b.Instrs[len(b.Instrs)-1].(*ssa.If)
+		if !isIf {
+			continue
+		}
+		bo, isBo := ifi.Cond.(*ssa.BinOp)
+		if !isBo || (bo.Op != token.NEQ && bo.Op != token.EQL) {
+			continue
+		}
+		isExt := func(v ssa.Value) bool { nm, ok := fieldSel(v); return ok && nm == "Extension" }
+		if !isExt(bo.X) && !isExt(bo.Y) {
+			continue
+		}
+		unequal := b.Succs[0]
+		if bo.Op == token.EQL {
+			unequal = b.Succs[1]
+		}
+		for _, x := range unequal.Instrs {
+			if ret, isRet := x.(*ssa.Return); isRet && isErrorExit(ret) {
+				ok = true
+				pos = w.pos(ifi.Pos())
+			}
+		}
+	}
+	r.check(ok, "ingestTarfile:extension-equal-or-refused", "the entry's extension is compared for equality and refused when different",
+		"the tar ingest does not refuse an entry whose extension differs from the instance's (no equality test with an error on the unequal edge): \"12.dat.gz\" is stored beside \"12.dat\" and, keys being unterminated names matched by byte prefix, the two supervoxel files are no longer separated", pos)
+}
+
+func ruleOnlyLevelZeroIndexed(r *Run) {
+	w := r.W
+	n := 0
+	for _, f := range w.RepoFuncs {
+		if len(f.Blocks) == 0 || relPkg(pkgPathOf(f)) != "datatype/labelmap" || isTestFunc(w, f) {
+			continue
+		}
+		// the function (or the function it is a literal of) has a uint8 parameter named scale
+		top := f
+		for top.Parent() != nil {
+			top = top.Parent()
+		}
+		var scale *ssa.Parameter
+		for _, p := range top.Params {
+			if p.Name() == "scale" && p.Type().String() == "uint8" {
+				scale = p
+			}
+		}
+		if scale == nil {
+			continue
+		}
+		k := 0
+		for _, c := range calls(f) {
+			nm := methodNameOf(c)
+			if nm != "handleBlockIndexing" && nm != "handleBlockMutate" {
+				continue
+			}
+			n++
+			k++
+			ok := false
+			for _, b := range f.Blocks {
+				ifi, isIf := b.Instrs[len(b.Instrs)-1].(*ssa.If)
+				if !isIf {
+					continue
+				}
+				bo, isBo := ifi.Cond.(*ssa.BinOp)
+				if !isBo || (bo.Op != token.EQL && bo.Op != token.NEQ) {
+					continue
+				}
+				if z, isK := constInt(bo.Y); !isK || z != 0 {
+					continue
+				}
+				sroot := captureRoot(stripConv(bo.X))
+				isScale := sroot == ssa.Value(scale)
+				if al, ok := sroot.(*ssa.Alloc); ok && al.Comment == "scale" {
+					isScale = true
+				}
+				if !isScale {
+					continue
+				}
+				edge := 0
+				if bo.Op == token.NEQ {
+					edge = 1
+				}
+				if guardedByEdge(ifi, edge, c) {
+					ok = true
+				}
+			}
+			r.check(ok, fmt.Sprintf("%s:%s#%d:behind-scale-zero", fname(f), nm, k), "the block is counted only on the scale == 0 edge",
+				"a block stored at a caller-given scale is handed to the index aggregation without the scale == 0 test: blocks of a lower-resolution level posted by a client are counted into the bodies' indices, whose sizes and block lists then disagree with the level-0 voxels", w.pos(c.Pos()))
+		}
+	}
+	r.check(n >= 1, "labelmap:scaled-block-stores-that-index", fmt.Sprintf("%d", n), "none found: rule needs review", "-")
+}
+
+func ruleNoSharedBlockEntries(r *Run) {
+	w := r.W
+	n, bad := 0, 0
+	for _, f := range w.RepoFuncs {
+		if len(f.Blocks) == 0 || relPkg(pkgPathOf(f)) != "datatype/labelmap" || isTestFunc(w, f) {
+			continue
+		}
+		for _, b := range f.Blocks {
+			for _, in := range b.Instrs {
+				mu, ok := in.(*ssa.MapUpdate)
+				if !ok || !(isFieldLoad(mu.Map, "Index", "Blocks") || isFieldLoad(mu.Map, "LabelIndex", "Blocks")) {
+					continue
+				}
+				n++
+				dstObj := indexObjectOf(mu.Map)
+				// the stored value: read out of another index's Blocks?
+				for _, rv := range roots(mu.Value, f) {
+					var m ssa.Value
+					switch x := rv.V.(type) {
+					case *ssa.Extract:
+						if nx, ok := x.Tuple.(*ssa.Next); ok {
+							if rg, ok := nx.Iter.(*ssa.Range); ok {
+								m = rg.X
+							}
+						}
+						if lk, ok := x.Tuple.(*ssa.Lookup); ok {
+							m = lk.X
+						}
+					case *ssa.Lookup:
+						m = x.X
+					}
+					if m == nil || !(isFieldLoad(m, "Index", "Blocks") || isFieldLoad(m, "LabelIndex", "Blocks")) {
+						continue
+					}
+					if indexObjectOf(m) != dstObj {
+						bad++
+						r.violation(fmt.Sprintf("%s:Blocks-entry-shared", fname(f)),
+							"a block entry read from one label index is stored into another index's Blocks map: the counts of the entry it replaces are lost (two merged bodies with voxels in one block), and the entry is shared between the two indices from then on — the merged body's index disagrees with its voxels", w.pos(mu.Pos()))
+					}
+				}
+			}
+		}
+	}
+	r.check(n >= 1, "labelmap:stores-into-Index.Blocks", fmt.Sprintf("%d stores, %d shared", n, bad), "too few stores found: rule needs review", "-")
+}
+
+func ruleSingleMemberShortcutGuarded(r *Run) {
+	w := r.W
+	total := 0
+	for _, f := range w.RepoFuncs {
+		if len(f.Blocks) == 0 || relPkg(pkgPathOf(f)) != "datatype/common/labels" || isTestFunc(w, f) {
+			continue
+		}
+		var set *ssa.Parameter
+		for _, p := range f.Params {
+			if p.Name() == "indices" && p.Type().String() == "map[uint32]struct{}" {
+				set = p
+			}
+		}
+		if set == nil {
+			continue
+		}
+		// the flag: a bool phi with a constant true edge, tested by Ifs; computed behind len(indices) > 1
+		var flagTests []*ssa.If
+		for _, b := range f.Blocks {
+			ifi, ok := b.Instrs[len(b.Instrs)-1].(*ssa.If)
+			if !ok {
+				continue
+			}
+			phi, ok := ifi.Cond.(*ssa.Phi)
+			if !ok || phi.Type().String() != "bool" {
+				continue
+			}
+			// one of the phi's edges comes from a block guarded by len(set) > 1
+			fromLen := false
+			for i := range phi.Edges {
+				pred := phi.Block().Preds[i]
+				for _, gb := range f.Blocks {
+					gi, ok := gb.Instrs[len(gb.Instrs)-1].(*ssa.If)
+					if !ok {
+						continue
+					}
+					for d := range dataDeps(gi.Cond) {
+						if c, ok := d.(*ssa.Call); ok {
+							if bi, ok := c.Call.Value.(*ssa.Builtin); ok && bi.Name() == "len" && len(c.Call.Args) == 1 && c.Call.Args[0] == ssa.Value(set) {
+								if gb == pred || gb.Dominates(pred) {
+									fromLen = true
+								}
+							}
+						}
+					}
+				}
+			}
+			if fromLen {
+				flagTests = append(flagTests, ifi)
+			}
+		}
+		isMember := func(v ssa.Value) bool {
+			for _, rv := range roots(v, f) {
+				if ex, ok := rv.V.(*ssa.Extract); ok {
+					if nx, ok := ex.Tuple.(*ssa.Next); ok {
+						if rg, ok := nx.Iter.(*ssa.Range); ok && rg.X == ssa.Value(set) {
+							return true
+						}
+					}
+				}
+			}
+			return false
+		}
+		n := 0
+		for _, b := range f.Blocks {
+			for _, in := range b.Instrs {
+				bo, ok := in.(*ssa.BinOp)
+				if !ok || (bo.Op != token.EQL && bo.Op != token.NEQ) {
+					continue
+				}
+				_, xPhi := stripConv(bo.X).(*ssa.Phi)
+				_, yPhi := stripConv(bo.Y).(*ssa.Phi)
+				if !(xPhi && isMember(bo.X)) && !(yPhi && isMember(bo.Y)) {
+					continue
+				}
+				n++
+				ok2 := false
+				for _, t := range flagTests {
+					if guardedByEdge(t, 1, bo) {
+						ok2 = true
+					}
+				}
+				r.check(ok2, fmt.Sprintf("%s:single-member-compare#%d:behind-not-several", fname(f), n), "the comparison lies behind the 'not several members' edge",
+					"a comparison with the single requested position is made without the test that the set has only one member: for a body with several supervoxels in the block only one of them counts as foreground on this path (uniform sub-blocks), and the sparse volume misses the others' voxels", w.pos(bo.Pos()))
+			}
+		}
+		total += n
+	}
+	r.check(total >= 4, "labels:single-member-compares", fmt.Sprintf("%d", total), "too few found: rule needs review", "-")
+}
+
+// indexObjectOf: the index value whose Blocks map v is a load of (through the embedded protobuf struct).
+func indexObjectOf(v ssa.Value) ssa.Value {
+	u, ok := v.(*ssa.UnOp)
+	if !ok {
+		return v
+	}
+	x := u.X
+	for i := 0; i < 8; i++ {
+		switch y := x.(type) {
+		case *ssa.FieldAddr:
+			x = y.X
+			continue
+		case *ssa.UnOp:
+			if y.Op == token.MUL {
+				x = y.X
+				continue
+			}
+		}
+		break
+	}
+	return x
+}
